@@ -359,6 +359,9 @@ func (e *Engine) call(fr *Frame, st *State, reach Term, site ssa.Instruction, c 
 		}
 	}
 	if fc := e.P.lookupContract(id); fc != nil {
+		if fc.UnboundedAlloc && (e.P.allocChecks[e.FuncID] || e.allocAll) {
+			e.safety("alloc", "call."+labelName(id), reach, False)
+		}
 		names := e.P.paramNames(fc, callee, c, len(args))
 		res := e.applyContract(fr, st, reach, fc, id, label, names, args, resType)
 		return res, reach
@@ -938,6 +941,14 @@ func (e *Engine) goStmt(fr *Frame, st *State, reach Term, g *ssa.Go) {
 	}
 	id, callee := e.P.calleeID(c)
 	e.goTargets = append(e.goTargets, goTarget{id: id, fn: callee, pos: e.posString(g.Pos()), reach: reach})
+	// process survival: a panic in a goroutine without a deferred recover() terminates the whole server
+	if callee != nil && callee.Blocks != nil {
+		e.kindOrd["gorecover"]++
+		name := labelName(id)
+		e.oblige("gorecover", fmt.Sprintf("gorecover@go.%s#%d", name, e.kindOrd["gorecover"]),
+			"goroutine "+id+" is started without a deferred recover(): a panic in it (e.g. while parsing a fetched CRL) kills the process",
+			reach, BoolLit(hasDeferredRecover(callee)), nil)
+	}
 	// callee precondition is checked with the empty lockset
 	if fc := e.P.lookupContract(id); fc != nil && len(fc.Requires) > 0 {
 		var args []Val
@@ -948,6 +959,18 @@ func (e *Engine) goStmt(fr *Frame, st *State, reach Term, g *ssa.Go) {
 		bind := map[string]Val{}
 		for i, n := range names {
 			bind[n] = args[i]
+		}
+		if mc, ok := c.Value.(*ssa.MakeClosure); ok {
+			// captured variables are named like the variables and denote their current values
+			cf := mc.Fn.(*ssa.Function)
+			for i, b := range mc.Bindings {
+				if i < len(cf.FreeVars) {
+					bv := e.valueOf(fr, st, b)
+					if bv.Addr != nil {
+						bind[cf.FreeVars[i].Name()] = e.load(st, bv.Addr)
+					}
+				}
+			}
 		}
 		st2 := st.clone()
 		st2.setComp("L.held", T(ArraySort(SInt, SInt), "((as const (Array Int Int)) 0)"))
@@ -968,6 +991,38 @@ func (e *Engine) goStmt(fr *Frame, st *State, reach Term, g *ssa.Go) {
 			e.oblige("pre", fmt.Sprintf("pre.%s@go.%s", lbl, label), fc.ID+" requires "+rq.Text+" (new goroutine, empty lockset)", reach, cnd, rq)
 		}
 	}
+}
+
+// hasDeferredRecover: fn defers (directly) a function literal that calls recover().
+func hasDeferredRecover(fn *ssa.Function) bool {
+	for _, b := range fn.Blocks {
+		for _, in := range b.Instrs {
+			d, ok := in.(*ssa.Defer)
+			if !ok {
+				continue
+			}
+			var body *ssa.Function
+			switch v := d.Call.Value.(type) {
+			case *ssa.MakeClosure:
+				body = v.Fn.(*ssa.Function)
+			case *ssa.Function:
+				body = v
+			}
+			if body == nil {
+				continue
+			}
+			for _, bb := range body.Blocks {
+				for _, bi := range bb.Instrs {
+					if c, ok := bi.(*ssa.Call); ok {
+						if bt, ok := c.Call.Value.(*ssa.Builtin); ok && bt.Name() == "recover" {
+							return true
+						}
+					}
+				}
+			}
+		}
+	}
+	return false
 }
 
 type goTarget struct {
@@ -1066,7 +1121,10 @@ func (e *Engine) appendOp(fr *Frame, st *State, reach Term, c *ssa.CallCommon, a
 	rOff := e.define("aoff", Ite(grow, IntLit(0), sOff))
 	nCap := e.fresh("acap", SInt)
 	e.assume(reach, And(Bin(SBool, ">=", nCap, nLen), Implies(Not(grow), Eq(nCap, sCap))))
-	e.allocCheckAppend(reach, grow, nLen)
+	if !(isConstOne(tLen) && !tIsStr) {
+		// appending one element grows the slice by data the program already holds; only bulk appends are checked
+		e.allocCheckAppend(reach, grow, nLen)
+	}
 	for _, lf := range Layout(et) {
 		name := "E." + typeID(et) + "." + lf.Path
 		inSort := ArraySort(SInt, lf.Sort)
